@@ -278,3 +278,108 @@ def run_trace(
             break
     st.finish()
     return _result(ctx, st, None)
+
+
+def run_enumerated(
+    prop: str,
+    seed: int,
+    run: int,
+    profile: dict,
+    oracle_factory,
+    world_kw: dict | None = None,
+    nontrivial_fn=None,
+) -> RunResult:
+    """C09 mode: a seeded base history; at EVERY position every constructible
+    bad call and every read-only call is issued (enumerated, not sampled),
+    restarts at seeded positions."""
+    from .oracles import c09
+    from .oracles.c02 import expected_fall_ends
+
+    env.fresh_run_state()
+    observe.reset_run_caches()
+    wr = stream(seed, prop, run, "world")
+    world = W.gen_world(wr, **(world_kw or {}))
+    ctx = Ctx(world, profile, oracle_factory())
+    st = Stepper(ctx)
+    pr = stream(seed, prop, run, "programs")
+    il = stream(seed, prop, run, "interleave")
+    fr = stream(seed, prop, run, "faults")
+    setup = A.SetupActor(pr, world, ctx.sut.device, ctx.sut.register, profile)
+    lo, hi = profile["ops_per_channel"]
+    chan_actors = [A.ChannelActor(n, pr.randint(lo, hi)) for n in dict.fromkeys(setup.chan_names)]
+    late = A.LateActor(pr, setup, profile, ctx.sut.device)
+    base = 0
+    max_base = profile.get("max_base", 14)
+    dev = ctx.sut.device
+
+    def probes():
+        snap = st.cur
+        # biased-state probes (evidence)
+        for cs in snap.channels.values():
+            if not snap.parametrized and cs.slots and max(expected_fall_ends(cs)) > cs.end:
+                ctx.probe("state_pending_fall")
+            if cs.in_eom:
+                ctx.probe("state_open_eom")
+            if cs.waiting_first_pulse:
+                ctx.probe("state_slm_pending")
+            if dev.max_sequence_duration is not None and dev.max_sequence_duration - cs.end < 400:
+                ctx.probe("state_near_max_seq")
+        if snap.flags["measured"]:
+            ctx.probe("state_measured")
+        if snap.parametrized:
+            return
+        cat = faults.bad_calls(snap, ctx)
+        if snap.flags["measured"]:
+            cat = cat + faults.after_measure_calls(snap, ctx)
+        ctx.stats["enumerated_bad_calls"] += len(cat)
+        for tag, op in cat:
+            ctx.stats["fault/bad/configured"] += 1
+            st.step("fault", op, "bad/" + tag)
+            if st.violations:
+                return
+        for op in c09.observer_catalogue(st.cur, ctx, fr):
+            ctx.stats["fault/observe/configured"] += 1
+            st.step("observer", op, "observe/" + op["op"])
+            if st.violations:
+                return
+        if fr.random() < profile.get("draw_p", 0.03):
+            st.step("observer", {"op": "obs_draw", "mode": "input+output", "shifts": True}, "observe/obs_draw")
+        if fr.random() < profile.get("restart_p", 0.35) and ctx.sut.restarts < profile["max_restarts"]:
+            k = G.wpick(fr, profile["restart_kinds"])
+            op = {"op": k}
+            if k == "restart_abstract":
+                op["skip"] = fr.random() < 0.8
+            ctx.stats["fault/restart/configured"] += 1
+            st.step("fault", op, "restart/" + k)
+
+    probes()
+    while base < max_base and not st.violations:
+        snap = st.cur
+        cands = []
+        if setup.runnable(snap):
+            cands.append((setup, 6.0))
+        run_ch = [a for a in chan_actors if a.runnable(snap)]
+        cands += [(a, 1.0) for a in run_ch]
+        if late.runnable(snap) and snap.channels:
+            cands.append((late, 0.4))
+        if not cands or (not run_ch and not setup.runnable(snap)):
+            break
+        tot = sum(w for _, w in cands)
+        r = il.random() * tot
+        acc = 0.0
+        chosen = cands[-1][0]
+        for a, w in cands:
+            acc += w
+            if r < acc:
+                chosen = a
+                break
+        op = chosen.next_op(pr, snap, ctx)
+        if op is None:
+            continue
+        st.step(getattr(chosen, "name", "?"), op)
+        base += 1
+        ctx.stats["base_calls"] += 1
+        if not st.violations:
+            probes()
+    st.finish()
+    return _result(ctx, st, nontrivial_fn)
